@@ -23,7 +23,7 @@ CHUNK = 2
 
 RES = [256, 1000, 1024, 4096, 65536, 262144]
 LOWLOG = {'rfi-log4-0.01': (4.0, 0.01), 'rfi-log3-0.5': (3.0, 0.5), 'rfi-log5-0.1': (5.0, 0.1)}     # log amplifiers whose lowest value lies between 0 and 1
-STATES = ['raw', 'rfi-lin', 'rfi-log4', 'rfi-log2.5-0', 'mef', 'float-neg', 'shifted'] + sorted(LOWLOG) + ['mef-low', 'float-neg-nan']      # 'shifted': range starting below zero (linear scale only)
+STATES = ['raw', 'rfi-lin', 'rfi-log4', 'rfi-log2.5-0', 'mef', 'float-neg', 'shifted'] + sorted(LOWLOG) + ['mef-low', 'float-neg-nan', 'mef-partial', 'sliced-tail', 'sliced-step']      # 'shifted': range starting below zero (linear scale only)
 
 
 def make(res3, state):
@@ -46,7 +46,22 @@ def make(res3, state):
         d._c19_min = [min(r[j] for r in ev if r[j] == r[j]) for j in range(3)]
         d._c19_nan = state == 'float-neg-nan'
         return d, [lambda x: x] * 3
-    pne = {'raw': '0,0', 'rfi-lin': '0,0', 'rfi-log4': '4,1', 'rfi-log2.5-0': '2.5,0', 'mef': '4,1', 'shifted': '0,0', 'mef-low': '4,1'}.get(state)
+    if state in ('sliced-tail', 'sliced-step'):
+        # a sub-sample taken with a slice of the channels (not starting at the first channel / with a step) out of a file whose other
+        # channels have another resolution: bins follow the resolution of the channels that are left
+        other = 64 if 64 not in res3 else 128
+        allres = [other] + list(res3) if state == 'sliced-tail' else [res3[0], other, res3[1], other, res3[2]]
+        ev = [[0] * len(allres), [1] * len(allres), [r - 1 for r in allres], [r // 2 for r in allres]]
+        lay = dict(datatype='I', bits=[16 if r <= 65536 else 32 for r in allres], ranges=allres, pne=['0,0'] * len(allres), events=ev, byteord='4,3,2,1',
+                   names=(['X0', 'CH1', 'CH2', 'CH3'] if state == 'sliced-tail' else ['CH1', 'X1', 'CH2', 'X2', 'CH3']))
+        buf, _ = fcsgen.build(lay)
+        p = os.path.join(scratch(), 'c19s.fcs')
+        with open(p, 'wb') as f:
+            f.write(buf)
+        d = FlowCal.io.FCSData(p)
+        d = d[:, 1:] if state == 'sliced-tail' else d[:, ::2]
+        return d, [lambda x: x] * 3
+    pne = {'raw': '0,0', 'rfi-lin': '0,0', 'rfi-log4': '4,1', 'rfi-log2.5-0': '2.5,0', 'mef': '4,1', 'shifted': '0,0', 'mef-low': '4,1', 'mef-partial': '4,1'}.get(state)
     if state in LOWLOG:
         pne = '%r,%r' % LOWLOG[state]
     events = [[0, 0, 0], [1, 1, 1]] + [[r - 1 for r in res3]] + [[r // 2 for r in res3]]
@@ -63,7 +78,7 @@ def make(res3, state):
         d = FlowCal.transform.to_rfi(d)
         if state == 'rfi-lin':
             fns = [lambda x, g=g: x / g for g in (2.0, 0.5, 4.0)]
-        elif state in ('rfi-log4', 'mef', 'mef-low'):
+        elif state in ('rfi-log4', 'mef', 'mef-low', 'mef-partial'):
             fns = [lambda x, r=r: 1.0 * 10 ** (4.0 / r * x) for r in res3]
         elif state in LOWLOG:
             fns = [lambda x, r=r, a=LOWLOG[state]: a[1] * 10 ** (a[0] / r * x) for r in res3]
@@ -73,6 +88,12 @@ def make(res3, state):
         # background subtraction: every value and both range limits move down by 100.25
         d = FlowCal.transform.transform(d, [0, 1, 2], lambda x: x - 100.25)
         fns = [lambda x: x - 100.25] * 3
+    if state == 'mef-partial':
+        # curves are known for all three channels, only the first one is converted: the others still hold (and are binned as) RFI
+        scs = [lambda x, m=m, b=b: np.sign(x) * np.exp(b) * (np.abs(x) ** m) for m, b in ((1.05, 2.0), (0.95, 3.5), (1.2, 0.5))]
+        d = FlowCal.transform.to_mef(d, [0], scs, [0, 1, 2])
+        f0 = list(fns)
+        fns = [lambda x, f=f0[0], sc=scs[0]: sc(f(x)), f0[1], f0[2]]
     if state in ('mef', 'mef-low'):
         # ('mef-low': standard curves that put the lowest channel value between 0 and 1 MEF)
         scs = [lambda x, m=m, b=b: np.sign(x) * np.exp(b) * (np.abs(x) ** m) for m, b in (((1.05, 2.0), (0.95, 3.5), (1.2, 0.5)) if state == 'mef' else
@@ -325,7 +346,7 @@ def run_case(c):
                         if bad:
                             res.violation(sig + ':grid', '%s: edge %d is %r, the image of the uniform display grid is %r' % (what, bad[0], float(bad[1]), bad[2]), one)
                             continue
-                    if nb is None and ((scale == 'linear' and st in ('raw', 'rfi-lin')) or (scale == 'log' and st in ('rfi-log4', 'rfi-log2.5-0') + tuple(LOWLOG))):
+                    if nb is None and ((scale == 'linear' and st in ('raw', 'rfi-lin', 'sliced-tail', 'sliced-step')) or (scale == 'log' and st in ('rfi-log4', 'rfi-log2.5-0') + tuple(LOWLOG))):
                         # each representable value is the centre of its own bin
                         if scale == 'linear':
                             centres = 0.5 * (e[:-1] + e[1:])
